@@ -1580,6 +1580,8 @@ pub struct VerifAudit<'a, K, V> {
     pub walks_terminated: bool,
     /// `head.prev` and `tail.next` are null
     pub sentinels_closed: bool,
+    /// address of a node (or sentinel) a walk reached that the liveness oracle rejected
+    pub dangling: Option<usize>,
 }
 
 #[cfg(feature = "verif-hooks")]
@@ -1587,12 +1589,25 @@ impl<K, V, E, S> RawLRU<K, V, E, S> {
     /// Verification hook: walk the list in both directions (bounded) and dump the index.
     #[doc(hidden)]
     pub fn verif_audit(&self) -> VerifAudit<'_, K, V> {
-        let limit = self.map.len() + 1;
+        self.verif_audit_checked(self.map.len() + 1, &|_| true)
+    }
+
+    /// Verification hook: the same walk, at most `limit` nodes in each direction, dereferencing a
+    /// node only when `live(address)` says the block is allocated (otherwise the walk stops and
+    /// `dangling` records the address).
+    #[doc(hidden)]
+    pub fn verif_audit_checked(&self, limit: usize, live: &dyn Fn(usize) -> bool) -> VerifAudit<'_, K, V> {
         let mut fwd = Vec::new();
         let mut bwd = Vec::new();
         let mut ok = true;
+        let mut dangling = None;
+        let sentinels_live = live(self.head as usize) && live(self.tail as usize);
+        if !sentinels_live {
+            ok = false;
+            dangling = Some(if live(self.head as usize) { self.tail as usize } else { self.head as usize });
+        }
         unsafe {
-            let mut node = (*self.head).next;
+            let mut node = if sentinels_live { (*self.head).next } else { self.tail };
             loop {
                 if node.is_null() {
                     ok = false;
@@ -1605,6 +1620,11 @@ impl<K, V, E, S> RawLRU<K, V, E, S> {
                     ok = false;
                     break;
                 }
+                if !live(node as usize) {
+                    ok = false;
+                    dangling = Some(node as usize);
+                    break;
+                }
                 fwd.push((
                     node as usize,
                     (*node).key.as_ptr() as usize,
@@ -1613,7 +1633,7 @@ impl<K, V, E, S> RawLRU<K, V, E, S> {
                 ));
                 node = (*node).next;
             }
-            let mut node = (*self.tail).prev;
+            let mut node = if sentinels_live { (*self.tail).prev } else { self.head };
             loop {
                 if node.is_null() {
                     ok = false;
@@ -1624,6 +1644,11 @@ impl<K, V, E, S> RawLRU<K, V, E, S> {
                 }
                 if bwd.len() >= limit {
                     ok = false;
+                    break;
+                }
+                if !live(node as usize) {
+                    ok = false;
+                    dangling = Some(node as usize);
                     break;
                 }
                 bwd.push(node as usize);
@@ -1645,7 +1670,9 @@ impl<K, V, E, S> RawLRU<K, V, E, S> {
             len: self.map.len(),
             has_cb: self.on_evict.is_some(),
             walks_terminated: ok,
-            sentinels_closed: unsafe { (*self.head).prev.is_null() && (*self.tail).next.is_null() },
+            sentinels_closed: sentinels_live
+                && unsafe { (*self.head).prev.is_null() && (*self.tail).next.is_null() },
+            dangling,
         }
     }
 }
